@@ -1,10 +1,16 @@
 module lalverif
 
-go 1.18
+go 1.22.0
 
 require (
 	github.com/q191201771/lal v0.0.0
 	github.com/q191201771/naza v0.30.49
+	golang.org/x/tools v0.29.0
+)
+
+require (
+	golang.org/x/mod v0.22.0 // indirect
+	golang.org/x/sync v0.10.0 // indirect
 )
 
 replace github.com/q191201771/lal => /repo
